@@ -12,6 +12,7 @@ echo "== demo without change"; PYTHONPATH=$WT /venv/bin/python demo.py >/tmp/see
 git stash pop -q
 D=/verif/seeded/$NAME; mkdir -p $D; cp /tmp/seed_$NAME.diff $D/patch.diff; cp demo.py $D/demo.py
 cd /verif
+KEEP=$(mktemp -d); cp -a evidence "$KEEP/"; trap 'rm -rf /verif/evidence; cp -a "$KEEP/evidence" /verif/evidence; rm -rf "$KEEP"' EXIT
 git -C /repo apply $D/patch.diff || { echo "apply failed"; exit 9; }
 echo "== check quick"; timeout 1800 ./check $P --tier quick > /tmp/seed_$NAME.check 2>&1; C=$?; echo "check exit $C"; grep -E "VIOLATION|UNDECIDED|CHECKER" /tmp/seed_$NAME.check | cut -c1-300
 git -C /repo checkout -- .
